@@ -448,7 +448,13 @@ class ReversibleRuleRouter(ReversibleRouter, RuleRouter):
 
         for rule in self.rules:
             if isinstance(rule.target, ReversibleRouter):
-                reversed_url = rule.target.reverse_url(name, *args)
+                try:
+                    reversed_url = rule.target.reverse_url(name, *args)
+                except KeyError:
+                    # Some nested routers (e.g. tornado.web.Application) raise
+                    # KeyError for a name they don't know instead of returning
+                    # None; keep looking in the remaining rules.
+                    continue
                 if reversed_url is not None:
                     return reversed_url
 
